@@ -164,17 +164,16 @@ func runStop(c *rig.Ctx, cs Case, m mode) int {
 		c.Trace()
 	}
 	impl := map[string]interface{}{"ok": ok, "attempts": attempts, "stopCh": stopCh, "stopped": stopped, "flusher": flusher, "held": held, "items": items}
-	// judge: after stopLeading has returned the shard has no store, and - if a Stop succeeded - no flusher
+	// judge: after stopLeading has returned - after a Stop that succeeded or after giving up - the shard has no
+	// store and no flusher of the shard is left
 	if held {
 		fail("judge", "c13.discard.lose", fmt.Sprintf("after losing shard %d its store is still in limitStoreMap", shard), impl, nil)
 	}
 	if ok && flusher {
 		fail("judge", "c13.discard.flusher-survives-stop", fmt.Sprintf("stopLeading(%d) returned after a Stop that answered nil (attempt %d, API script %v), but the store's flusher goroutine is still running (stopCh open, stopped=%v) with %d condition(s) of the lost shard", shard, attempts, cs.Api, stopped, items), impl, nil)
 	}
-	if !ok && flusher && attempts < 10 {
-		fail("judge", "c13.discard.stop-abandoned", fmt.Sprintf("stopLeading(%d) returned after only %d failed Stop attempt(s) (API script %v): the detached store keeps its %d condition(s) and its flusher goroutine keeps running", shard, attempts, cs.Api, items), impl, nil)
-	} else if !ok && flusher {
-		fail("judge", "c13.discard.stop-gives-up", fmt.Sprintf("stopLeading(%d) gave up after %d failed Stop attempts (API script %v): the detached store keeps its %d condition(s) and its flusher goroutine keeps running", shard, attempts, cs.Api, items), impl, nil)
+	if !ok && flusher {
+		fail("judge", "c13.discard.stop-gives-up", fmt.Sprintf("stopLeading(%d) returned after %d failed Stop attempt(s) (API script %v): the detached store keeps its %d condition(s) and its flusher goroutine keeps running", shard, attempts, cs.Api, items), impl, nil)
 	}
 	var mod struct {
 		Ok, StopCh, Stopped, Flusher bool
